@@ -63,6 +63,12 @@ pub enum Class {
     IfSelectedLambdaCalledInPlace,
     IfSelectedNamedFnCalledInPlace,
     IfSelectedGlobalOrLambdaInHelper,
+    MacroPipePartial,
+    PipeIntoCapturingLambda,
+    LocalArrayOfClosures,
+    GlobalArrayOfClosures,
+    GlobalArrayOfBoxes,
+    InplaceLambdaCapturingArray,
     // ---- known findings on the pinned tree (rate per dsp call in `rate()`)
     LocalCaptureBound,
     ReturnedBound,
@@ -92,13 +98,18 @@ pub enum Class {
     LocalTupleOfBoxes,
     MatchTailDropped,
     BoxInCondition,
+    LocalArrayOfBoxes,
+    RecordClosureLocal,
+    ArrayOfClosuresPassedToHelper,
+    TupleClosureAndBox,
     // ---- known findings of the other clause: a handle released twice / used after release
     AliasOfBox,
     ReturnedLetBoundBox,
     EscapingClosureCapturesLetBoundBox,
+    ArrayOfClosuresReturnedFromHelper,
 }
 
-pub const STABLE: [Class; 42] = [
+pub const STABLE: [Class; 48] = [
     Class::LocalNoCapture,
     Class::InplaceCapturing,
     Class::GlobalClosureCalled,
@@ -141,12 +152,23 @@ pub const STABLE: [Class; 42] = [
     Class::IfSelectedLambdaCalledInPlace,
     Class::IfSelectedNamedFnCalledInPlace,
     Class::IfSelectedGlobalOrLambdaInHelper,
+    Class::MacroPipePartial,
+    Class::PipeIntoCapturingLambda,
+    Class::LocalArrayOfClosures,
+    Class::GlobalArrayOfClosures,
+    Class::GlobalArrayOfBoxes,
+    Class::InplaceLambdaCapturingArray,
 ];
 /// Constructs that release a heap object twice (logged `invalid HeapIdx`) or use it after release
 /// (`BoxLoad: invalid heap index`) on the pinned tree. One scenario in twelve contains exactly one
 /// of them and nothing else, so that these findings cannot hide another use-after-release.
-pub const UAF: [Class; 3] = [Class::AliasOfBox, Class::ReturnedLetBoundBox, Class::EscapingClosureCapturesLetBoundBox];
-pub const LEAKY: [Class; 28] = [
+pub const UAF: [Class; 4] = [
+    Class::AliasOfBox,
+    Class::ReturnedLetBoundBox,
+    Class::EscapingClosureCapturesLetBoundBox,
+    Class::ArrayOfClosuresReturnedFromHelper,
+];
+pub const LEAKY: [Class; 32] = [
     Class::LocalCaptureBound,
     Class::ReturnedBound,
     Class::ReturnedInplace,
@@ -175,6 +197,10 @@ pub const LEAKY: [Class; 28] = [
     Class::LocalTupleOfBoxes,
     Class::MatchTailDropped,
     Class::BoxInCondition,
+    Class::LocalArrayOfBoxes,
+    Class::RecordClosureLocal,
+    Class::ArrayOfClosuresPassedToHelper,
+    Class::TupleClosureAndBox,
 ];
 
 impl Class {
@@ -253,6 +279,17 @@ impl Class {
             Class::SchedInlineFromDsp => "closure-literal-scheduled-from-dsp",
             Class::SchedNamedFromDsp => "named-task-scheduled-from-dsp",
             Class::SchedSelfNamed => "self-rescheduling-named-task",
+            Class::MacroPipePartial => "macro-pipe-with-placeholder-partial-application",
+            Class::PipeIntoCapturingLambda => "value-piped-into-a-capturing-lambda",
+            Class::LocalArrayOfClosures => "array-of-capturing-lambdas-built-and-indexed-in-dsp",
+            Class::GlobalArrayOfClosures => "array-of-closures-made-by-main-indexed-in-dsp",
+            Class::GlobalArrayOfBoxes => "array-of-boxed-lists-made-by-main-folded-in-dsp",
+            Class::InplaceLambdaCapturingArray => "in-place-lambda-capturing-a-local-array",
+            Class::LocalArrayOfBoxes => "array-of-boxed-values-built-in-dsp",
+            Class::RecordClosureLocal => "closure-inside-a-record-bound-in-dsp",
+            Class::ArrayOfClosuresPassedToHelper => "array-of-lambdas-passed-to-a-helper-that-selects-one",
+            Class::TupleClosureAndBox => "tuple-of-a-closure-and-a-box-bound-in-dsp",
+            Class::ArrayOfClosuresReturnedFromHelper => "array-of-closures-returned-from-a-helper",
         }
     }
     /// (closures, heap objects) retained per dsp call on the pinned tree. For `SchedSelfNamed`
@@ -263,7 +300,9 @@ impl Class {
             Class::LocalTupleClosure => (1, 1),
             Class::BoxedReturnedFromIfDropped | Class::HelperYieldsOtherBox => (0, 1),
             Class::BoxThroughIdentity | Class::BoxInCondition => (0, 1),
-            Class::LocalTupleOfBoxes | Class::MatchTailDropped => (0, 2),
+            Class::LocalTupleOfBoxes | Class::MatchTailDropped | Class::LocalArrayOfBoxes => (0, 2),
+            Class::RecordClosureLocal | Class::ArrayOfClosuresPassedToHelper => (1, 1),
+            Class::TupleClosureAndBox => (1, 2),
             Class::ClosureCapturingClosure => (2, 1),
             Class::ClosureCapturingBox => (1, 1),
             Class::ReturnedClosureCapturingBox => (1, 2),
@@ -469,6 +508,61 @@ impl Inst {
                     "fn mkh{i}(q){{\n  |x| x * q\n}}\nlet fh{i} = mkh{i}({k})\nfn once{i}(h:(float)->float, x:float){{\n  (|a| h(a) + 1.0)(x)\n}}\n"
                 ),
                 format!("  let r{i} = once{i}(fh{i}, now);\n"),
+                format!("r{i}"),
+            ),
+            Class::MacroPipePartial => (
+                format!("fn sc{i}(x, k){{\n  x * k\n}}\n"),
+                format!("  let kk{i} = now + {k};\n  let r{i} = now ||> sc{i}(_, kk{i}) ||> _ + 1.0;\n"),
+                format!("r{i}"),
+            ),
+            Class::PipeIntoCapturingLambda => (
+                String::new(),
+                format!("  let kk{i} = now + {k};\n  let r{i} = now |> |a| a + kk{i};\n"),
+                format!("r{i}"),
+            ),
+            Class::LocalArrayOfClosures => (
+                String::new(),
+                format!("  let kk{i} = now + {k};\n  let fs{i} = [|x| x + kk{i}, |x| x * kk{i}];\n  let r{i} = fs{i}[0](1.0) + fs{i}[1](2.0);\n"),
+                format!("r{i}"),
+            ),
+            Class::GlobalArrayOfClosures => (
+                format!("fn mka{i}(k){{\n  |x| x + k\n}}\nlet gs{i} = [mka{i}({k}), mka{i}(2.0)]\n"),
+                format!("  let r{i} = gs{i}[0](now) + gs{i}[1](now);\n"),
+                format!("r{i}"),
+            ),
+            Class::GlobalArrayOfBoxes => (
+                format!("{}let gx{i} = [Cons({k}, Nil), Cons(2.0, Cons(3.0, Nil))]\n", LIST_DEF),
+                format!("  let r{i} = sum(gx{i}[0]) + sum(gx{i}[1]) + now;\n"),
+                format!("r{i}"),
+            ),
+            Class::InplaceLambdaCapturingArray => (
+                String::new(),
+                format!("  let ar{i} = [now, {k}, 3.0];\n  let r{i} = (|j| ar{i}[j] * 2.0)(1.0);\n"),
+                format!("r{i}"),
+            ),
+            Class::LocalArrayOfBoxes => (
+                LIST_DEF.to_string(),
+                format!("  let xs{i} = [Cons(now, Nil), Cons({k}, Nil)];\n  let r{i} = sum(xs{i}[0]) + sum(xs{i}[1]);\n"),
+                format!("r{i}"),
+            ),
+            Class::RecordClosureLocal => (
+                String::new(),
+                format!("  let kk{i} = now + {k};\n  let rc{i} = {{ f = |x| x + kk{i}, g = 1.5 }};\n  let r{i} = rc{i}.f(2.0) + rc{i}.g;\n"),
+                format!("r{i}"),
+            ),
+            Class::ArrayOfClosuresPassedToHelper => (
+                format!("fn pick{i}(fs, j){{\n  fs[j]\n}}\n"),
+                format!("  let kk{i} = now + {k};\n  let fs{i} = [|x| x + kk{i}, |x| x * kk{i}];\n  let r{i} = pick{i}(fs{i}, now % 2.0)(1.0);\n"),
+                format!("r{i}"),
+            ),
+            Class::TupleClosureAndBox => (
+                LIST_DEF.to_string(),
+                format!("  let kk{i} = now + {k};\n  let tp{i} = (|x| x + kk{i}, Cons(kk{i}, Nil));\n  let r{i} = tp{i}.0(1.0) + sum(tp{i}.1);\n"),
+                format!("r{i}"),
+            ),
+            Class::ArrayOfClosuresReturnedFromHelper => (
+                format!("fn mkfs{i}(k){{\n  [|x| x + k, |x| x * k]\n}}\n"),
+                format!("  let fs{i} = mkfs{i}(now + {k});\n  let r{i} = fs{i}[0](1.0) + fs{i}[1](2.0);\n"),
                 format!("r{i}"),
             ),
             Class::IfSelectedLambdaCalledInPlace => (
